@@ -3,6 +3,7 @@ package main
 // Evaluation of contract expressions against a symbolic state.
 
 import (
+	"os"
 	"fmt"
 	"go/constant"
 	"go/types"
@@ -207,6 +208,17 @@ func (ev *evaluator) ident(name string) Val {
 	if v, ok := ev.extra[name]; ok {
 		return v
 	}
+	for f := ev.fr; f != nil; f = f.parent {
+		if f.fn == nil {
+			continue
+		}
+		if a := r.eng.aliasesFor(f.fname, f.fn); a != nil {
+			if nn, ok := a[name]; ok {
+				name = nn
+				break
+			}
+		}
+	}
 	if i := strings.Index(name, "#"); i > 0 {
 		var ord int
 		fmt.Sscan(name[i+1:], &ord)
@@ -234,6 +246,7 @@ func (ev *evaluator) ident(name string) Val {
 				for _, phi := range phisOf(h) {
 					if phi.Comment == name {
 						if v, ok := f.vals[phi]; ok {
+							logLocalName(f.fname, name, "loop-phi")
 							return v
 						}
 					}
@@ -250,6 +263,7 @@ func (ev *evaluator) ident(name string) Val {
 			}
 		}
 		if cnt == 1 {
+			logLocalName(f.fname, name, "phi")
 			return *found
 		}
 		if cnt > 1 {
@@ -281,6 +295,7 @@ func (ev *evaluator) ident(name string) Val {
 					consider(d.v, d.blk, d.idx)
 				}
 				if best != nil {
+					logLocalName(f.fname, name, "phi-dom")
 					return *best
 				}
 			}
@@ -289,11 +304,13 @@ func (ev *evaluator) ident(name string) Val {
 		if p, ok := f.names["&"+name]; ok {
 			v := r.load(ev.st, p)
 			if v.K != KInvalid {
+				logLocalName(f.fname, name, "alloc")
 				return v
 			}
 		}
 		if f.dbg != nil {
 			if v, ok := f.dbg[name]; ok {
+				logLocalName(f.fname, name, "dbg")
 				return v
 			}
 			if p, ok := f.dbg["&"+name]; ok {
@@ -1045,4 +1062,17 @@ func (ev *evaluator) resolveType(s string) types.Type {
 	}
 	ev.fail("unknown type %q", s)
 	return nil
+}
+
+var localNameLog = map[string]bool{}
+
+func logLocalName(fn, name, how string) {
+	if os.Getenv("GPV_LOGNAMES") == "" {
+		return
+	}
+	k := fn + "\t" + name + "\t" + how
+	if !localNameLog[k] {
+		localNameLog[k] = true
+		fmt.Fprintln(os.Stderr, "LOCALNAME\t"+k)
+	}
 }
